@@ -48,7 +48,7 @@ def workdir(name, clean=True):
 # --------------------------------------------------------------------------------------------
 # cargo
 # --------------------------------------------------------------------------------------------
-def cargo_build(bins, package="vh", release=False, features=None, timeout=1800, workspace=None, target="target"):
+def cargo_build(bins, package="vh", release=False, features=None, timeout=1800, workspace=None, target="target", no_default=False):
     """Builds harness binaries from /repo's *current working tree* (path dependencies).
     Returns {bin: path}.  A compile error is a tool error (exit 2), not a verdict."""
     global HARNESS
@@ -56,12 +56,12 @@ def cargo_build(bins, package="vh", release=False, features=None, timeout=1800, 
     if workspace is not None:
         HARNESS = Path(workspace)
     try:
-        return _cargo_build(bins, package, release, features, timeout, target)
+        return _cargo_build(bins, package, release, features, timeout, target, no_default)
     finally:
         HARNESS = saved
 
 
-def _cargo_build(bins, package, release, features, timeout, target):
+def _cargo_build(bins, package, release, features, timeout, target, no_default=False):
     if not (HARNESS / "Cargo.lock").exists():
         shutil.copy("/repo/Cargo.lock", HARNESS / "Cargo.lock")
     cmd = ["cargo", "build", "--offline", "-p", package]
@@ -71,6 +71,8 @@ def _cargo_build(bins, package, release, features, timeout, target):
         cmd.append("--release")
     if features:
         cmd += ["--features", ",".join(features)]
+    if no_default:
+        cmd.append("--no-default-features")
     env = dict(os.environ, CARGO_NET_OFFLINE="true")
     t0 = time.time()
     p = subprocess.run(cmd, cwd=HARNESS, env=env, capture_output=True, text=True, timeout=timeout)
